@@ -189,6 +189,25 @@ def build_base(rnd):
             size = total // 8
         b.fields.append((tag, lines))
         pos += size
+    # fixed-size types in fields whose size is only known at run time: accepted whenever the field CAN be
+    # large enough (upper bound of the size >= size of the type); the boundary is "exactly as large"
+    if rnd.random() < 0.5:
+        lines = ["  %d [+1]  bits:" % pos, "    0 [+2]  UInt  dsz2", "    2 [+1]  Flag  dfl", "    3 [+3]  UInt  dsz3"]
+        b.fields.append(("dynsel", lines))
+        pos += 1
+        k = rnd.random()
+        if k < 0.35:
+            lines = ["  %d [+dsz2]  Sub  dyn_a" % pos]  # dsz2 <= 3 == size of Sub
+        elif k < 0.6:
+            lines = ["  %d [+(dfl ? 3 : 0)]  Sub  dyn_b" % pos]
+        elif k < 0.8:
+            lines = ["  %d [+dsz3]  Sub  dyn_c" % pos]  # dsz3 <= 7 > 3
+        else:
+            lines = ["  %d [+dsz2 * %d]  %s  dyn_d" % (pos, (btotal // 8 + 2) // 3, bname)]  # 3 * ceil(n/3) >= n bytes
+            if not default_bo and btotal > 8:
+                lines.append('    [byte_order: "%s"]' % rnd.choice(["LittleEndian", "BigEndian"]))
+        b.fields.append(("dynfield", lines))
+        pos += 8
     return b, {"enums": enums, "bits": (bname, btotal), "end": pos, "default_bo": default_bo}
 
 
